@@ -63,6 +63,7 @@ def main():
         moddir = wt
         if dest.startswith("godev/"):
             moddir = wt + "/godev"; pkg = "./" + dest[len("godev/"):]
+        os.makedirs(os.path.join(wt, dest), exist_ok=True)
         for f in demos:
             if os.path.isdir(f):
                 shutil.copytree(f, os.path.join(wt, dest, os.path.basename(f)))
